@@ -1,7 +1,7 @@
 // Contract predicates for the connection-id registries -- property C13.
 // Restricted sub-language (DESIGN 2.2): integer/boolean expressions over i128, if/else, struct
 // literals, calls to other functions of these files.  The same text is asserted by the Kani
-// harnesses (contracts/kani/transport/lidr.rs, pidr.rs) and transliterated into Verus spec functions
+// harnesses (contracts/kani/transport/lidr.rs; probes/kani_injected_c13_pidr.rs) and transliterated into Verus spec functions
 // for the history lemmas (verus/lemmas/C13.rs).
 //
 // A registry is a *sequence* of entries plus a few counters.  The sub-language has no sequences, so the
